@@ -199,6 +199,28 @@ def targets_through_convert():
             targets = [20, 40, 60, 80, 95] + ([32700] if suffix else [])
             want = sorted(targets if filt else [10, 20, 30, 40, 50, 60, 70, 80, 90, 95] + ([32700] if suffix else []))
             res.append(ob("targets/empty lines keep their labels,filter=%d,suffix=%d" % (filt, suffix), labs == want, want, labs))
+        # more than one ON ERR / ON BRK statement is refused - however many different lines they name
+        for name, prog, refused in (("two ON ERR, same target", "10 ON ERR GOTO 100\n20 ON ERR GOTO 100\n100 END\n", True), ("two ON ERR, two targets", "10 ON ERR GOTO 100\n20 ON ERR GOTO 200\n100 END\n200 END\n", True),
+                                    ("two ON ERR on one line", "10 ON ERR GOTO 100:ON ERR GOTO 100\n100 END\n", True), ("second ON ERR in an IF arm", "10 ON ERR GOTO 100\n20 IF A=1 THEN ON ERR GOTO 100\n100 END\n", True),
+                                    ("two ON BRK, same target", "10 ON BRK GOTO 100\n20 ON BRK GOTO 100\n100 END\n", True), ("three ON BRK, two targets", "10 ON BRK GOTO 100\n20 ON BRK GOTO 200\n30 ON BRK GOTO 100\n100 END\n200 END\n", True),
+                                    ("one ON ERR and one ON BRK, same target", "10 ON ERR GOTO 100\n20 ON BRK GOTO 100\n100 END\n", False), ("one ON ERR", "10 ON ERR GOTO 100\n100 END\n", False)):
+            for filt, suffix in itertools.product((False, True), (False, True)):
+                try:
+                    convert(prog, add_standard_prefix=False, filter_unused_linenum=filt, add_suffix=suffix)
+                    got = "converted"
+                except Exception as e:  # noqa
+                    got = "refused (%s)" % type(e).__name__
+                res.append(ob("targets/at most one handler of each kind/%s,filter=%d,suffix=%d" % (name, filt, suffix), got.startswith("refused (ParseError") == refused and (refused or got == "converted"),
+                              "refused" if refused else "converted", got, prog))
+        # with the filter on precisely the unreferenced labels disappear: all of them when nothing jumps
+        for name, prog, keep in (("no jump at all", "0 A=1\n10 B=2\n20 PRINT A;B\n", []), ("no jump, comment and DATA lines", "5 REM x\n10 DATA 1,2\n20 READ A\n", []), ("one jump", "10 A=1\n20 GOTO 10\n30 END\n", ["10"]),
+                                 ("only a handler", "10 ON ERR GOTO 30\n20 A=1\n30 END\n", ["30"]), ("only a RESTORE-free ON GOSUB", "10 ON A GOSUB 30\n20 END\n30 RETURN\n", ["30"])):
+            try:
+                text = convert(prog, add_standard_prefix=False, filter_unused_linenum=True, add_suffix=False)
+                got = [m for m in re.findall(r"(?m)^(\d+) ", text)]
+            except Exception as e:  # noqa
+                got = "%s: %s" % (type(e).__name__, str(e)[:60])
+            res.append(ob("targets/filter keeps exactly the referenced labels/%s" % name, got == keep, keep, got, prog))
         # ON lists are positional: the k-th entry is the target for selector value k - repeated entries stay where they are
         for src, want in {"ON A GOTO 100,100,200": "ON A GOTO 100, 100, 200", "ON A GOSUB 200,100,200,100": "ON A GOSUB 200, 100, 200, 100", "ON A GOTO 100": "ON A GOTO 100",
                           "ON A GOTO 200,200": "ON A GOTO 200, 200"}.items():
